@@ -43,6 +43,10 @@ def reg1_2(ctx: Ctx) -> None:
                 keyexpr = n.args[0]
             if keyexpr is not None:
                 n_key += 1
+                if isinstance(keyexpr, ast.Name):
+                    al = [a.value for a in ast.walk(m) if isinstance(a, ast.Assign) and len(a.targets) == 1 and norm(a.targets[0]) == keyexpr.id]
+                    if len(al) == 1:
+                        keyexpr = al[0]
                 if isinstance(keyexpr, ast.Call) and norm(keyexpr.func) == "id" and len(keyexpr.args) == 1 and norm(keyexpr.args[0]) in params:
                     ctx.R.ok("REG-2", f"IdentityDict.{m.name}: key wrapped as {norm(keyexpr)}")
                 else:
@@ -180,13 +184,19 @@ def reg4_6(ctx: Ctx) -> None:
         s = st[0]
         key = norm(s.targets[0].slice)
         src = [x for x in walk_scope(reg) if isinstance(x, ast.Assign) and norm(x.targets[0]) == key]
-        gs = [g for g in guards_of(mod, s, reg)]
-        if s not in reg.body:
-            ctx.R.fail("REG-4", mod, s, "the registration store must be unconditional (latest registration wins)")
-        elif len(src) == 1 and norm(src[0].value) == "get_code(code, *nested_names)" and norm(s.value) == "func":
-            ctx.R.ok("REG-4", "registry[get_code(code, *nested_names)] = func, unconditionally (latest wins)")
+        keyexpr = norm(src[0].value) if len(src) == 1 else key
+        gs = [(norm(gx), pol) for gx, pol in guards_of(mod, s, reg)]
+        membership = [gx for gx, pol in gs if " in registry" in gx or "registry.get(" in gx or "registry.keys()" in gx]
+        if membership:
+            ctx.R.fail("REG-4", mod, s, f"the registration store is guarded by `{membership[0]}`: an existing registration is not replaced (the documented behaviour is that the latest wins)")
+        elif keyexpr == "get_code(code, *nested_names)" and norm(s.value) == "func":
+            ctx.R.ok("REG-4", "registry[get_code(code, *nested_names)] = func (latest wins)")
+        elif keyexpr.startswith("get_code(") and keyexpr != "get_code(code, *nested_names)":
+            ctx.R.fail("REG-4", mod, s, f"the registry key must be get_code(code, *nested_names); the code uses {keyexpr}: nested names are ignored / the wrong target is resolved")
+        elif "get_code" not in keyexpr:
+            ctx.R.fail("REG-4", mod, s, f"the registry is keyed by `{keyexpr}` instead of the code object resolved by get_code(code, *nested_names)")
         else:
-            ctx.R.fail("REG-4", mod, s, "the registry key must be get_code(code, *nested_names) and the value the registered function")
+            ctx.R.undecided("REG-4", f"registration store `{norm(s)}` not understood")
     # register returns the implementation (it is used as a decorator: returning None would replace the user's function)
     lastret = reg.body[-1]
     if isinstance(lastret, ast.Return) and lastret.value is not None and norm(lastret.value) == "func":
@@ -219,21 +229,40 @@ def reg4_6(ctx: Ctx) -> None:
     # dispatch
     txt = [norm(s) for s in dis.body]
     tr = [s for s in dis.body if isinstance(s, ast.Try)]
-    ok = False
-    if len(tr) == 1 and "code = code_from_arg(arg)" in txt:
+    dtext = norm(dis)
+    if len(tr) == 1:
         t = tr[0]
-        if len(t.body) == 1 and norm(t.body[0]) == "return registry[code]" and len(t.handlers) == 1 and norm(t.handlers[0].type) == "KeyError" \
-                and norm(t.handlers[0].body[0]) == "return default_impl":
-            ok = True
-    if ok:
-        ctx.R.ok("REG-4", "dispatch: registry[code_from_arg(arg)], default only on KeyError")
+        hnames = [norm(h.type) if h.type is not None else "<bare>" for h in t.handlers]
+        looks = [x for x in ast.walk(t) if isinstance(x, ast.Subscript) and norm(x.value) == "registry"]
+        if hnames == ["KeyError"] and looks and any(isinstance(x, ast.Return) and norm(x.value) == "default_impl" for x in t.handlers[0].body):
+            keytxt = norm(looks[0].slice)
+            ksrc = [a for a in dis.body if isinstance(a, ast.Assign) and norm(a.targets[0]) == keytxt]
+            if keytxt == "code_from_arg(arg)" or (len(ksrc) == 1 and norm(ksrc[0].value) == "code_from_arg(arg)"):
+                ctx.R.ok("REG-4", "dispatch: registry[code_from_arg(arg)], default only on KeyError")
+            else:
+                ctx.R.fail("REG-4", mod, dis, f"dispatch must look up code_from_arg(arg); it looks up `{keytxt}`", construct="dispatch key")
+        elif any(h in ("Exception", "BaseException", "<bare>") for h in hnames):
+            ctx.R.fail("REG-4", mod, t, "dispatch falls back to the default implementation on any exception, not only when no registration exists: an error inside code_from_arg is swallowed and the wrong implementation runs",
+                       construct="dispatch: broad except")
+        else:
+            ctx.R.undecided("REG-4", "dispatch try/except has an unrecognised shape")
+    elif "registry.get(code_from_arg(arg), default_impl)" in dtext or ("registry.get(code, default_impl)" in dtext and "code = code_from_arg(arg)" in txt):
+        ctx.R.ok("REG-4", "dispatch: registry.get(code_from_arg(arg), default_impl)")
     else:
-        ctx.R.fail("REG-4", mod, dis, "dispatch must look up code_from_arg(arg) in the registry and fall back to the default implementation only on KeyError", construct="dispatch body")
+        ctx.R.undecided("REG-4", "dispatch body not understood")
     w = mod.fn("code_dispatch.decorate.wrapper")
-    if any(isinstance(s, ast.Return) and norm(s.value) == "dispatch(__first_arg)(__first_arg, *args, **kwargs)" for s in w.body):
+    wret = [x for x in ast.walk(w) if isinstance(x, ast.Return) and x.value is not None]
+    wtxt = norm(wret[-1].value) if wret else ""
+    alias = {norm(a.targets[0]): norm(a.value) for a in ast.walk(w) if isinstance(a, ast.Assign) and len(a.targets) == 1}
+    for k_, v_ in alias.items():
+        if wtxt.startswith(k_ + "("):
+            wtxt = v_ + wtxt[len(k_):]
+    if wtxt == "dispatch(__first_arg)(__first_arg, *args, **kwargs)":
         ctx.R.ok("REG-4", "wrapper calls dispatch(first_arg)(first_arg, ...)")
+    elif "dispatch(" not in norm(w):
+        ctx.R.fail("REG-4", mod, w, "the wrapper does not go through dispatch: registered specialisations are never called")
     else:
-        ctx.R.fail("REG-4", mod, w, "the wrapper must call the implementation chosen by dispatch for its first argument")
+        ctx.R.undecided("REG-4", f"wrapper return `{wtxt[:60]}` not understood")
     # REG-6 attributes
     want = {"wrapper.register": "register", "wrapper.dispatch": "dispatch", "wrapper.registry": None}
     got = {norm(s.targets[0]): norm(s.value) for s in dec.body if isinstance(s, ast.Assign) and norm(s.targets[0]).startswith("wrapper.")}
@@ -312,7 +341,22 @@ def reg5(ctx: Ctx) -> None:
         stores = [s_ for s_ in ast.walk(it) if isinstance(s_, ast.Assign) and norm(s_.targets[0]) == f"{fparam}.{o}"]
         good = [s_ for s_ in stores if norm(s_.value) in ("True", o) and (norm(s_.value) == o or any(norm(x) == o for x, pol in guards_of(cm, s_, it) if pol))]
         if good:
-            ctx.R.ok("REG-5", f"direct form: {o} -> {fparam}.{o} = True")
+            # ... and on every path: the store (its guarding `if`) must dominate every return of the hook
+            g_ = ctx.cfg(it)
+            st0 = good[0]
+            anchor = st0
+            for a_ in cm.ancestors(st0):
+                if isinstance(a_, ast.If) and norm(a_.test) == o:
+                    anchor = a_
+                    break
+            an = g_.node_of(anchor)
+            rets_ = [n_ for n_ in g_.nodes if n_.ast is not None and isinstance(n_.ast, ast.Return)]
+            late = [r_ for r_ in rets_ if not g_.dominates(an, r_)]
+            if late:
+                ctx.R.fail("REG-5", cm, late[0].ast, f"option `{o}` is applied only on some paths: `{norm(late[0].ast)[:50]}` can be reached before `{fparam}.{o} = True` "
+                           f"(e.g. when the elaborate callback supplies a replacement), so {o}= silently has no effect there", construct=f"effect of {o} not on every path")
+            else:
+                ctx.R.ok("REG-5", f"direct form: {o} -> {fparam}.{o} = True on every path")
         elif not stores:
             ctx.R.fail("REG-5", cm, it, f"option `{o}` is read but Frame.{o} is never set from it: matching frames do not get {o}=True", construct=f"effect of {o}")
         else:
@@ -397,4 +441,25 @@ def reg5(ctx: Ctx) -> None:
         ctx.R.fail("REG-5", cm, fn, "customize must return its target unchanged (decorator use)")
 
 
-C12 = [reg1_2, reg3, reg4_6, reg5]
+def reg7(ctx: Ctx) -> None:
+    """REG-7 nothing on the resolution path memoises by equality: code objects compare equal when their contents are equal,
+    so an lru_cache / cache keyed by a code object hands back the result computed for a different-but-equal one"""
+    mod = ctx.P.mod("_code_dispatch")
+    n = 0
+    for q, fn in mod.defs.items():
+        if not isinstance(fn, (ast.FunctionDef, ast.AsyncFunctionDef)):
+            continue
+        n += 1
+        for d in fn.decorator_list:
+            dn = norm(d.func) if isinstance(d, ast.Call) else norm(d)
+            if dn.split(".")[-1] in ("lru_cache", "cache"):
+                ctx.R.fail("REG-7", mod, fn, f"`{q}` is memoised with @{dn}: its cache is keyed by equality, so for two distinct-but-equal code objects (the same source compiled twice, a reloaded module) "
+                           "the second lookup returns the first one's result and a registration binds to code that does not run", construct=f"@{dn} on {q}")
+    for st in mod.tree.body:
+        if isinstance(st, (ast.Assign, ast.AnnAssign)) and st.value is not None and isinstance(st.value, (ast.Dict, ast.Call)) and norm(st.value) in ("{}", "dict()", "WeakKeyDictionary()", "weakref.WeakKeyDictionary()"):
+            ctx.R.fail("REG-7", mod, st, "a module-level equality-keyed mapping in the code-resolution module: results cached under a code object are found again for an equal-but-distinct one",
+                       construct=f"module-level cache {norm(st)[:60]}")
+    ctx.R.ok("REG-7", f"no equality-keyed memoisation on {n} functions of _code_dispatch")
+
+
+C12 = [reg1_2, reg3, reg4_6, reg5, reg7]
